@@ -457,6 +457,9 @@ func TestC12(t *testing.T) {
 	if len(mine) == 0 {
 		return
 	}
+	// (deferred: the fresh-process rounds also run when the in-process search below has already failed - a failure
+	// that depends on what this process did earlier does not reproduce from its case alone, a fresh-process round does)
+	defer c12FirstUseRounds(t, rec)
 	ev.Rapid(t, ev.N(8000, 150000), 12, func(rt *rapid.T) {
 		mt := rapid.SampledFrom(mine).Draw(rt, "type")
 		c := &XCase{Type: mt.Key()}
@@ -504,7 +507,6 @@ func TestC12(t *testing.T) {
 		}
 		rec.Check(rt, "xcase", c, f)
 	})
-	c12FirstUseRounds(t, rec)
 }
 
 // undeclaredDesc builds an unregistered descriptor (int64, varint) for number n of mt - gogo and legacy runtimes only.
